@@ -401,6 +401,6 @@ impl<'a> crate::fdl::FdlApplication for DpMaster<'a> {
 }
 
 #[cfg(kani)]
-mod verif {
+pub(crate) mod verif {
     include!(concat!(env!("PROFIRUST_VERIF_HARNESS"), "/dp_master.rs"));
 }
